@@ -100,6 +100,8 @@ def render(ast, titles):
         return f'INDEX({render(ast[1], titles)};{ast[2]};{ast[3]})'
     if k == 'column':
         return f'COLUMN({render(ast[1], titles)})'
+    if k == 'opq':
+        return ast[2].format(*[render(a, titles) for a in ast[3]])
     raise ValueError(ast)
 
 
@@ -209,6 +211,12 @@ class Ref:
             for row in self.rows_of(ast[1], host):
                 for c in row:
                     out.setdefault(c, 'column_arg')
+        elif k == 'opq':
+            d = {}
+            for a in ast[3]:
+                self.deps(a, host, d)
+            for c in d:
+                out.setdefault(c, 'arg_of_' + ast[1])
         else:
             raise ValueError(ast)
         return out
@@ -361,6 +369,8 @@ class Ref:
             return self.value(rows[ast[2] - 1][ast[3] - 1], ov, memo)
         if k == 'column':
             return self.rows_of(ast[1], host)[0][0][1] + 1
+        if k == 'opq':
+            raise Unknown('function outside the evaluated fragment: only dependencies are modelled')
         raise ValueError(ast)
 
 
@@ -423,11 +433,15 @@ def check_model(job):
     def fail(key, what, entry):
         if family == 'lookalike_quoted_title_pair' and key.startswith('C03.dag.rejected'):
             key = 'C03.dag.quoted_title_spans_two_references'
+        rank = size
         if colfam:
-            key = 'C03.column_range.' + key.split('.')[1] + '.' + key.split('.')[2]
-        fails.append({'key': key, 'what': f'[{family} #{gid}, {size} cells] ' + what, 'size': size,
+            # one root cause (ColumnControlConstructionTokenTranslator writes the cells to the right of the formula); prefer the
+            # entry-vs-whole witness
+            rank = size - (0.5 if '.entry_vs_whole.' in key else 0)
+            key = 'C03.column_range.overwrites_neighbour_cells'
+        fails.append({'key': key, 'what': f'[{family} #{gid}, {size} cells] ' + what, 'size': rank,
                       'replay': {'kind': 'model', 'key': key,
-                                 'job': dict(job, entries=[list(entry)] if entry is not None else job['entries'][:1], reuse=False)}})
+                                 'job': dict(job, entries=[list(entry)] if entry is not None else job['entries'], reuse=False)}})
 
     def kind_of(cell):
         e = ref.cm.get(cell)
@@ -435,7 +449,7 @@ def check_model(job):
             return 'blank'
         if e[0] == 'k':
             return 'const'
-        return 'formula_' + (e[1][0] if e[1][0] != 'agg' else e[1][1].lower())
+        return 'formula_' + (e[1][1].lower() if e[1][0] in ('agg', 'opq') else e[1][0])
 
     with lib.scratch() as d:
         path = os.path.join(d, 'wb.xlsx')
@@ -487,10 +501,9 @@ def check_model(job):
                 if cell in refv[i]:
                     ev['reference'] += 1
                     if not agrees(wv[i][cell], refv[i][cell], WEmpty):
-                        fail(f'C03.faithful.whole_vs_reference.{kind_of(cell)}' + ('.override' if i else ''),
+                        fail(f'C03.faithful.vs_reference.{kind_of(cell)}',
                              f'whole-file translation: {addr(titles, cell)} (={_text_of(ref, cell)}) after overrides '
-                             f'{_ovs(titles, stages, i)} -> {show(wv[i][cell], WEmpty)}, statement demands {show(refv[i][cell])}',
-                             entries[0] if entries else None)
+                             f'{_ovs(titles, stages, i)} -> {show(wv[i][cell], WEmpty)}, statement demands {show(refv[i][cell])}', None)
 
         reuse_parser = None
         if job.get('reuse'):
@@ -545,14 +558,14 @@ def check_model(job):
                     got, w = evs[i][cell], wv[i][cell]
                     ev['faithful'] += 1
                     if venc(got, Empty) != venc(w, WEmpty):
-                        fail(f'C03.faithful.entry_vs_whole.{kind_of(cell)}' + ('.override' if i else ''),
+                        fail(f'C03.faithful.entry_vs_whole.{kind_of(cell)}',
                              f'entry {ename}: slice cell {addr(titles, cell)} (={_text_of(ref, cell)}) after overrides '
                              f'{_ovs(titles, stages, i)}: entry-point class -> {show(got, Empty)}, whole-file class -> '
                              f'{show(w, WEmpty)}' + (f', reference {show(refv[i][cell])}' if cell in refv[i] else ''), entry)
                     if cell in refv[i]:
                         ev['reference'] += 1
                         if not agrees(got, refv[i][cell], Empty):
-                            fail(f'C03.faithful.entry_vs_reference.{kind_of(cell)}' + ('.override' if i else ''),
+                            fail(f'C03.faithful.vs_reference.{kind_of(cell)}',
                                  f'entry {ename}: {addr(titles, cell)} (={_text_of(ref, cell)}) after overrides '
                                  f'{_ovs(titles, stages, i)} -> {show(got, Empty)}, statement demands {show(refv[i][cell])}', entry)
         if reuse_parser is not None and entries:
@@ -893,6 +906,22 @@ def column_jobs():
     return out
 
 
+# functions whose value the reference does not model: only their dependencies (closure) and entry-vs-whole equality are checked.
+# argument kinds: c = single cell, R = rectangle, R= = rectangle of the shape of argument 0, V = vector
+OPAQUE = [
+    ('countifs', 'COUNTIFS({0};">1")', ['R']), ('countifs', 'COUNTIFS({0};{1})', ['R', 'c']),
+    ('countifs', 'COUNTIFS({0};">1";{1};"<9")', ['R', 'R=']), ('sumifs', 'SUMIFS({0};{1};">0")', ['R', 'R=']),
+    ('sumifs', 'SUMIFS({0};{1};{2})', ['R', 'R=', 'c']), ('averageifs', 'AVERAGEIFS({0};{1};">0")', ['R', 'R=']),
+    ('match', 'MATCH({1};{0};0)', ['V', 'c']), ('match', 'MATCH({1};{0};1)', ['V', 'c']), ('xmatch', 'XMATCH({1};{0})', ['V', 'c']),
+    ('average', 'AVERAGE({0})', ['R']), ('countblank', 'COUNTBLANK({0})', ['R']), ('min', 'MIN({0};{1})', ['R', 'c']),
+    ('sum', 'SUM({0};{1})', ['R', 'c']), ('iferror', 'IFERROR({0}/{1};0)', ['c', 'c']), ('and', 'AND({0}>0;{1}>0)', ['c', 'c']),
+    ('or', 'OR({0}>5;{1}>0)', ['c', 'c']), ('concatenate', 'CONCATENATE({0};{1})', ['c', 'c']), ('ampersand', '{0}&{1}', ['c', 'c']),
+    ('round', 'ROUND({0}/3;1)', ['c']), ('ifs', 'IFS({0}>1;{1};TRUE;{2})', ['c', 'c', 'c']),
+    ('index_match', 'INDEX({0};MATCH({1};{2};0);1)', ['R', 'c', 'V']), ('index_areas', 'INDEX(({0};{1});1;1;2)', ['R', 'R']),
+    ('count', 'COUNT({0};{1})', ['R', 'R']),
+]
+
+
 class Gen:
     """random DAG workbooks: 2..8 formula cells on a 4 x 6 grid of up to three sheets, all reference forms"""
     W, H = 4, 6
@@ -951,6 +980,9 @@ class Gen:
                     best = ast
                     break
                 except Unknown:
+                    if ast[0] == 'opq':
+                        best = ast
+                        break
                     best = best or ast
                 except IndexError:
                     continue
@@ -1022,6 +1054,22 @@ class Gen:
         if self.column and x < 0.3:
             R = self.pick_range(host, later, allow_cols=False)
             return None if R is None else ['column', R]
+        if rng.random() < 0.14:
+            name, tpl, kinds = rng.choice(OPAQUE)
+            args = []
+            for kd in kinds:
+                if kd == 'c':
+                    a = self.pick_ref(host, earlier, later)
+                elif kd == 'R':
+                    a = self.pick_range(host, later, allow_cols=False)
+                elif kd == 'V':
+                    a = self.pick_range(host, later, shape=(rng.randint(2, 4), 1) if rng.random() < 0.6 else (1, rng.randint(2, 3)))
+                else:
+                    a = self.pick_range(host, later, shape=(args[0][5] - args[0][3] + 1, args[0][4] - args[0][2] + 1))
+                if a is None:
+                    return None
+                args.append(a)
+            return ['opq', name, tpl, args]
         x = rng.random()
         if x < 0.14:
             return self.pick_ref(host, earlier, later)
@@ -1181,7 +1229,7 @@ def run(tier='quick', seed=0):
     n_small = len(jobs)
     look = lookalike_jobs()
     jobs += look
-    n_rand = 6000 if thorough else 260
+    n_rand = 4000 if thorough else 220
     g = Gen(rng)
     jobs += [g.job(i) for i in range(n_rand)]
     dag_res = _run_jobs(jobs)
@@ -1195,9 +1243,9 @@ def run(tier='quick', seed=0):
     # ---- 2. cycles
     t0 = time.time()
     if thorough:
-        cyc_jobs = digraph_jobs(3, ['bare', 'xsheet', 'range', 'cols', 'untaken_if'], 4, 3000, rng)
+        cyc_jobs = digraph_jobs(3, ['bare', 'xsheet', 'range', 'cols', 'untaken_if'], 4, 2000, rng)
     else:
-        cyc_jobs = digraph_jobs(3, ['bare', 'xsheet'], 3, 150, rng)
+        cyc_jobs = digraph_jobs(3, ['bare', 'xsheet'], 3, 120, rng)
     cyc_jobs += special_cycle_jobs()
     cyc_res = _run_jobs(cyc_jobs)
     cyc_ev, cyc_best = _collect(cyc_res, None)
@@ -1208,7 +1256,7 @@ def run(tier='quick', seed=0):
     t0 = time.time()
     col_jobs = column_jobs()
     gc = Gen(rng, column=True)
-    col_jobs += [gc.job(i) for i in range(1500 if thorough else 60)]
+    col_jobs += [gc.job(i) for i in range(1000 if thorough else 50)]
     col_res = _run_jobs(col_jobs)
     col_ev, col_best = _collect(col_res, None)
     col_secs = time.time() - t0
@@ -1250,7 +1298,7 @@ def run(tier='quick', seed=0):
         'name': 'C03.monitor.cycles',
         'bound': f'every digraph with self loops on 1..3 cells ({"5 layouts" if thorough else "2 layouts for 3 cells, 5 for fewer"}: bare =A2 chains, '
                  f"=S!A1 / ='T t'!A1 chains over two sheets with equal addresses, one-cell ranges, whole-column SUM(A:A), untaken IF branch), "
-                 f'{3000 if thorough else 150} sampled digraphs on {4 if thorough else 3} cells, rings of 1..6 cells with tails 0..2 in all 5 layouts, '
+                 f'{2000 if thorough else 120} sampled digraphs on {4 if thorough else 3} cells, rings of 1..6 cells with tails 0..2 in all 5 layouts, '
                  f'{len(special_cycle_jobs())} hand-made cycles (self reference bare / absolute / qualified, own cell inside a range / matrix / whole '
                  f'column(s) incl. 0 / FALSE / empty string, SUMIF sum range / criteria range / criteria cell, VLOOKUP and INDEX tables, IF condition and '
                  f'untaken branch, 2 and 3 sheets, cycle behind a shared cell, row 121, column AAA, ring of 40): {n_cyclic} cyclic workbooks; the '
@@ -1262,7 +1310,7 @@ def run(tier='quick', seed=0):
         'samples': [{'cyclic_workbooks': n_cyclic, 'acyclic_workbooks': len(cyc_jobs) - n_cyclic}], 'seconds': cyc_secs})
     checks.append({
         'name': 'C03.monitor.column_range',
-        'bound': f'{len(column_jobs())} hand-made + {1500 if thorough else 60} random workbooks (same generator) in which about 30% of the formulas are '
+        'bound': f'{len(column_jobs())} hand-made + {1000 if thorough else 50} random workbooks (same generator) in which about 30% of the formulas are '
                  f'COLUMN(<range>); closure, entry-vs-whole and reference checks as above, every cell as entry',
         'rule': 'as closure + faithful; kept apart so that the COLUMN(range) defect cannot mask other failures',
         'exhaustive': False, 'evaluations': sum(col_ev.get(k, 0) for k in ('closure', 'faithful', 'reference')),
